@@ -542,6 +542,15 @@ class _Iter:
         self.items, self.pos = items, 0
 
 
+def _counter(eng, items=()):
+    """collections.Counter of concrete hashable items: the dictionary of their multiplicities (first-seen order)"""
+    import collections
+    xs = eng.iterate(items)
+    if any(is_sym(x) for x in xs):
+        raise Unsupported("collections.Counter of symbolic items")
+    return dict(collections.Counter(xs))
+
+
 def _iter(eng, x):
     return _Iter(eng.iterate(x))
 
@@ -631,7 +640,8 @@ _Model.ext_models.update({
     "copy.deepcopy": _deepcopy,
     "functools.reduce": _reduce,
     "operator.iadd": _op_iadd,
-    "typing.cast": lambda eng, rec: rec.args[1],      # typing.cast returns its second argument unchanged
+    "typing.cast": lambda eng, rec: rec.args[1],
+    "collections.Counter": lambda eng, rec: _counter(eng, *rec.args),      # typing.cast returns its second argument unchanged
     "tqdm.tqdm": lambda eng, rec: rec.args[0],         # identity on its iterable (DESIGN 2.1)
 })
 
